@@ -66,6 +66,43 @@ void mpt_queue_align(queue_t *q, size_t pos)
 	q->off = 0;
 }
 
+#ifdef UNIT_RAW
+/* unencoded queue: push appends the caller's bytes to the open part, a zero-length push finishes everything,
+ * a push without data drops the open part */
+int mpt_qpush(queue_t *q, size_t len, const void *data)            /* contract of C13 unit qpush as stand-in */
+{
+	size_t i; if (!Q_WF(q) || len > q->max - q->len) return MPT_ERROR(MissingBuffer);
+	for (i = 0; i < CAP; i++) if (i < len) ((uint8_t *) q->base)[Q_IDX(q->off, q->max, q->len + i)] = ((const uint8_t *) data)[i];
+	q->len += len; return 0;
+}
+void harness(void)
+{
+	IN(size_t, in_max); IN(size_t, in_off); IN(size_t, in_done); IN(size_t, in_scratch); IN(size_t, in_qlen); IN(size_t, in_len); IN(int, in_mode); IN(size_t, in_k);
+	uint8_t in_data[CAP]; eq_t eq; size_t i; ssize_t r; uint8_t vk = 0;
+	V_FILL(in_data);
+	V_REQ(in_max >= 1 && in_max <= CAP && in_off < in_max && in_qlen <= in_max && in_done <= in_qlen && in_scratch <= in_qlen && in_len <= CAP && in_len >= 1);
+	for (i = 0; i < CAP; i++) h_st[i] = MARK(i);
+	eq.data.base = h_st; eq.data.max = in_max; eq.data.off = in_off; eq.data.len = in_qlen;
+	eq._state._ctx = 0; eq._state.done = in_done; eq._state.scratch = in_scratch; eq._enc = 0;
+	if (in_k < in_qlen) vk = QV(&eq.data, in_k);
+	if (in_mode == 0) r = mpt_queue_push(&eq, 0, 0); else if (in_mode == 1) r = mpt_queue_push(&eq, in_len, 0); else r = mpt_queue_push(&eq, in_len, in_data);
+	V_CHECK("raw: queue stays well formed", Q_WF(&eq.data));
+	if (in_mode == 0) {
+		V_CHECK("raw finish: everything queued counts as finished, nothing changes in the queue", r == (ssize_t) in_qlen && eq._state.done == in_qlen && eq._state.scratch == 0 && eq.data.len == in_qlen);
+	} else if (in_mode == 1) {
+		V_CHECK("raw drop: only an open part can be dropped, and only it is dropped", IMP(r >= 0, in_scratch > 0 && in_len <= 1 && eq.data.len == in_done && eq._state.done == in_done && eq._state.scratch == 0) && IMP(r < 0, eq.data.len == in_qlen && eq._state.done == in_done && eq._state.scratch == in_scratch));
+	} else {
+		size_t room = in_max - in_qlen, want = in_len < room ? in_len : room;
+		V_CHECK("raw data: inconsistent state is refused without change", IMP(in_done + in_scratch != in_qlen, r < 0 && eq.data.len == in_qlen));
+		V_CHECK("raw data: a full queue asks for space", IMP(in_done + in_scratch == in_qlen && !room, r == MPT_ERROR(MissingBuffer) && eq.data.len == in_qlen));
+		V_CHECK("raw data: as many bytes as fit are appended to the open part, in order", IMP(in_done + in_scratch == in_qlen && room, r == (ssize_t) want && eq.data.len == in_qlen + want && eq._state.scratch == in_scratch + want && eq._state.done == in_done && IMP(in_k < want, QV(&eq.data, in_qlen + in_k) == in_data[in_k])));
+	}
+	V_CHECK("raw: bytes queued earlier keep their place (except a dropped open part)", IMP(in_k < eq.data.len && in_k < in_qlen, QV(&eq.data, in_k) == vk));
+	V_COVER("partial append over the wrap", in_mode == 2 && r > 0 && (size_t) r < in_len && in_off + in_qlen < in_max && in_off + in_qlen + r > in_max);
+	V_COVER("open part dropped", in_mode == 1 && r == 0);
+	V_CANARY();
+}
+#else
 void harness(void)
 {
 	IN(size_t, in_max); IN(size_t, in_off); IN(size_t, in_done); IN(size_t, in_scratch); IN(size_t, in_len); IN(int, in_term); IN(size_t, in_k); IN(size_t, in_j);
@@ -92,3 +129,4 @@ void harness(void)
 	V_COVER("terminated", in_term && r == 0 && eq._state.scratch == 0 && eq._state.done == qlen + 1);
 	V_CANARY();
 }
+#endif
